@@ -320,3 +320,33 @@ def smp_start_jobs(tmp, opts=0):
         open(p, "wb").write(sfnt.build_sfnt(t))
     texts = [[0x10000], [0x41, 0x10000, 0x42], [0x10000, 0x10001, 0xFFFF, 0x10000], [0x1D510, 0x10000]]
     return [{"font": p, "cps": cps, "dir": 0, "opts": opts, "ppm": 0, "id": "u10000:%d" % k} for k, cps in enumerate(texts)]
+
+
+def oob_glyph_jobs(tmp, opts=0):
+    """Padauk with a cmap that sends 'A'..'D' to glyph ids the font does not have (numGlyphs, numGlyphs + 1, 0xFFFE, 0xFFFF)
+    next to a few Myanmar letters with their real glyphs: valid for a cmap, and every per-glyph table of the library is
+    then asked about a glyph beyond its end."""
+    import struct
+    from fontgen import sfnt, cmap as cmapmod
+    p = os.path.join(tmp, "padauk_oobglyphs.ttf")
+    if not os.path.exists(p):
+        src = os.path.join(F, "Padauk.ttf")
+        S = sfnt.Sfnt(src)
+        t = {k: S.table(k) for k in S.order}
+        n = struct.unpack(">H", t["maxp"][4:6])[0]
+        real = dict(_cmap_chars(src))
+        m = {0x41: n, 0x42: n + 1, 0x43: 0xFFFE, 0x44: 0xFFFF}
+        for c in range(0x1000, 0x1022):
+            if c in real:
+                m[c] = real[c]
+        segs = [{"s": c, "e": c, "delta": (m[c] - c) & 0xFFFF, "off": 0} for c in sorted(m)]
+        segs.append({"s": 0xFFFF, "e": 0xFFFF, "delta": 1, "off": 0})
+        t["cmap"] = cmapmod.table([(3, 1, cmapmod.fmt4(segs, []))])
+        open(p, "wb").write(sfnt.build_sfnt(t))
+    texts = [[0x41], [0x1000, 0x41, 0x1001], [0x42, 0x43, 0x44], [0x44, 0x1002, 0x102C, 0x43], [0x41, 0x41, 0x42]]
+    out = []
+    for k, cps in enumerate(texts):
+        for d in (0, 1):
+            for hinted in (0, 1, 2):
+                out.append({"font": p, "cps": cps, "dir": d, "opts": opts, "ppm": 11 if hinted else (0 if k % 2 else 14), "hinted": hinted, "nogid": 1, "id": "oobglyph:%d:d%d:h%d" % (k, d, hinted)})
+    return out
